@@ -401,7 +401,7 @@ func RunReplay(t *testing.T, p Property, path string) (bool, *Result, *Replay, e
 
 var registry = map[string]Property{}
 
-func Register(p Property) { registry[p.ID()] = p }
+func Register(p Property)       { registry[p.ID()] = p }
 func Lookup(id string) Property { return registry[id] }
 
 // Catch runs f and converts a panic into a message (with a short stack digest).
